@@ -10,6 +10,7 @@ with what TLC computed.
 from __future__ import annotations
 
 import asyncio
+import json
 import os
 import shutil
 import sys
@@ -339,32 +340,48 @@ def run_config(chk: Check, label: str, consts: dict, variants: list[str], *, sim
             chk.spec_violation(r, label)
             return
         chk.tlc(r, f"history export {label}", constants=rc)
-        hists = [rec["ops"] for rec in r.out_lines()]
+        # the histories stay on disk: every worker streams its own byte range of the file TLC wrote
+        from .gen import _split
+        path = r.workdir / "out.ndjson"
+        SCRATCH.mkdir(parents=True, exist_ok=True)
+        for variant in variants:
+            parts = _split(path, workers() * 4)
+            jobs = [(str(path), a, b, variant, cfg, str(SCRATCH), flt.__name__ if flt else None) for a, b in parts]
+            total = 0
+            with ProcessPoolExecutor(workers()) as ex:
+                for n, fails, sample in ex.map(_stream_chunk, jobs):
+                    total += n
+                    for h, f in fails:
+                        sig = f"{variant}:{classify(h, f)}"
+                        chk.violation(sig, {"variant": variant, "cfg": cfg, "history": h, "failure": f})
+                    if sample is not None and len(chk.cov["samples"]) < 8:
+                        chk.cov["samples"].append({"config": label, "variant": variant, "history": sample})
+            chk.validated(total)
+            chk.add_distinct(total)
+            chk.cov["evaluations"] += total
     finally:
         r.cleanup()
-    # dedupe (simulation may repeat)
-    seen, uniq = set(), []
-    for h in hists:
-        k = repr(h)
-        if k not in seen:
-            seen.add(k)
-            uniq.append(h)
-    SCRATCH.mkdir(parents=True, exist_ok=True)
-    for variant in variants:
-        sel = [h for h in uniq if (flt is None or flt(h, variant))]
-        if not sel:
-            continue
-        jobs = [(c, variant, cfg, str(SCRATCH)) for c in chunks(sel, workers() * 4)]
-        with ProcessPoolExecutor(workers()) as ex:
-            for res in ex.map(_replay_chunk, jobs):
-                for h, f in res:
-                    sig = f"{variant}:{classify(h, f)}"
-                    chk.violation(sig, {"variant": variant, "cfg": cfg, "history": h, "failure": f})
-        chk.validated(len(sel))
-        for h in sel[:: max(1, len(sel) // 200)]:
-            kinds = tuple(st["op"]["op"] + st["op"].get("mode", "") for st in h)
-            chk.case(f"{label}:{variant}:{kinds}", sample={"config": label, "variant": variant, "history": h})
-        chk.cov["evaluations"] += len(sel)
+
+
+def _stream_chunk(args):
+    path, start, end, variant, cfg, scratch, flt_name = args
+    flt = globals()[flt_name] if flt_name else None
+    fails, n, sample = [], 0, None
+    with open(path, "rb") as fd:
+        fd.seek(start)
+        while fd.tell() < end:
+            line = fd.readline()
+            if not line.strip():
+                continue
+            h = json.loads(line)["ops"]
+            if flt is not None and not flt(h, variant):
+                continue
+            n += 1
+            if sample is None:
+                sample = h
+            if len(fails) < 50:
+                fails.extend(_replay_chunk(([h], variant, cfg, scratch)))
+    return n, fails, sample
 
 
 def real_loader_filter(h, variant):
